@@ -158,6 +158,19 @@ def effects(facts, fn, depth=0, stack=()):
         if last in ('mark_feedback', 'ignore_destination', 'connect_blocks', 'connect_blocks_fragile', 'new_block', 'close_block', 'schedule_block'):
             out.append({'kind': last, 'at': t['at'], 'loop': loop, 'full': (c.get('full') or '')[:160]})
             continue
+        if p in ('std::iter::Iterator::for_each', 'std::iter::Iterator::try_for_each'):
+            # `(0..n).for_each(|_| ..)`: the adapter form of a loop - the closure body's effects happen once per element
+            for a in t['args'][1:]:
+                if a[0] == 'k' or not is_local(a[1]):
+                    continue
+                cd = fn.locals[a[1][0]].get('closure')
+                gl = facts.by_path.get(cd) if cd else None
+                if gl:
+                    for e in effects(facts, gl[0], depth + 1, stack + (fn.path,)):
+                        e2 = dict(e)
+                        e2['loop'] = True
+                        out.append(e2)
+            continue
         # another combinator: expand
         tgt = None
         for cand in (c.get('resolved'), p):
